@@ -137,6 +137,6 @@ func init() {
 	Props["C31"] = chainProp(60, 900, base+relay+"claims arrive at every height of the acceptance window because the auto-claim pass is a scheduled step; for every accepted claim the block whose hash selects the leaf must have been proposed strictly after the claim's block; every rewarded proof's leaf index is recomputed from the driver's own block log (SHA3-256 of {hash of the block before the proof height, session header hash}, first 8 bytes mod claimed count) and must match and lie inside the claimed count; distinct case = claim height relative to the proof height; local servicers also send proofs before the proof height for the leaf the current tip's hash selects: no proof may be accepted before the selecting block exists")
 	Props["C32"] = chainProp(60, 900, base+relay+"claim life-cycle table per (servicer, session header): admission conditions in the session-start and current state, reward only for a live claim with a verifying proof and at most once, overwritten and expired claims; distinct case = claim/proof outcomes; local servicers re-issue their claims and proofs under the other evidence type and re-issue claims for the session block height + 1: the relays of a session are paid through one claim, and a claim names a height at which a session starts")
 	Props["C33"] = chainProp(60, 900, base+relay+"every dispatch response is checked: count, distinctness, staked-for-chain at session start, not jailed at both reference points, identical answer for identical inputs (also after restarts), insufficient-nodes only if fewer eligible nodes exist; distinct case = (session nodes, population)")
-	Props["C35"] = chainProp(60, 900, base+relay+"one relay per step may have exactly one aspect altered (token signature, client signature, client key, request hash, servicer key, chain, session height, meta block height, unstaked application); it must be refused and leave the evidence unchanged, the unaltered relays around it must be answered, signed and recorded; distinct case = mutation kinds and refusal reasons")
+	Props["C35"] = chainProp(60, 900, base+relay+"one relay per step may have exactly one aspect altered (token signature, client signature, client key, request hash, servicer key, chain, session height, meta block height, unstaked application); it must be refused and leave the evidence unchanged, the unaltered relays around it must be answered, signed and recorded; distinct case = mutation kinds and refusal reasons; every third C35 configuration runs the node with a client session sync allowance of one session, relays also name a height inside the previous session (at which no session starts), and a fresh relay for a past session that the node refuses directly is offered again through the ABCI query route custom/pocketcore/relay at a height of that session")
 	Props["C36"] = chainProp(45, 900, base+"parameter changes, upgrades and DAO transfers/burns by the owner and by other keys, amounts around the DAO balance; distinct case = (tx kind, encoding, outcome)")
 }
